@@ -315,7 +315,7 @@ where
             r is Ok && id is None ==> (forall|i: int| #![auto] 0 <= i < final(requests_out).written().last().len() ==> !old(self).registry@.dom().contains(final(requests_out).written().last()[i] as usize)), // [C09/process/new-ids-distinct-from-every-outstanding-id]
             id is None ==> kept(old(self).registry@, final(self).registry@), // [C09+C12/process/an-event-never-disturbs-outstanding-requests]
 //@rule X8b.eta * s/\.map_err\(BridgeError::(\w+)\)/.map_err(|e: SerdeError| -> (x: BridgeError) ensures x == BridgeError::\1(e) { BridgeError::\1(e) })/
-//@rule X13.map-collect 1 s/let requests: Vec<_> = effects\s*\.into_iter\(\)\s*\.map\(\|(\w+)\| self\.registry\.register\(\1\)\)\s*\.collect\(\);/let requests = register_all(&mut self.registry, effects);/
+//@rule X13.map-collect 1 s/let requests(?:: Vec<_>)? = effects\s*\.into_iter\(\)\s*\.map\(\|(\w+)\| self\.registry\.register\(\1\)\)\s*\.collect(?:::<Vec<_>>)?\(\);/let requests = register_all(&mut self.registry, effects);/
 //@rule X13.erased-serialize 1 s/requests\s*\.erased_serialize\(requests_out\)/erased_serialize(&requests, requests_out)/
 //@end
 }
